@@ -188,6 +188,77 @@ example : ∃ s d, recvConn true false 3 Server.init 1
     rcases hm with rfl | rfl <;> simp [metaName] at hn
     subst hn; decide
 
+/-! ### the per-cpu perf files -/
+
+/-- Every perf-cpuN.dat the client sends data for arrives under the same name with the same bytes, whatever
+    the set of cpus (holes, numbers ≥ 10, up to 2^32 - 1): for every cpu N the file perf-cpuN.dat of the
+    received directory is the concatenation, in order, of the SEND_PERF_DATA payloads for cpu N — data of
+    two cpus never shares a file, trace / kernel / info data never lands in it — and the file exists exactly
+    when the client sent perf data for N (no file is made for a cpu without events).
+    Hypothesis: no metadata file is sent under the name perf-cpuN.dat (record.c sends task.txt, sid-*.map,
+    *.sym, *.dbg, kernel_header, kallsyms, events.txt and the log file). -/
+theorem c16_perf_files_preserved (ms : List Msg) (cpu : Nat) (hc : cpu < 2 ^ 32) (hwf : ∀ m ∈ ms, m.WF)
+    (hmeta : ∀ m ∈ ms, ∀ n c, m = .file n c → n ≠ perfName cpu) :
+    aget (ms.foldl dirStep freshDir) (perfName cpu) =
+      (if perfParts cpu ms = [] then none else some (perfParts cpu ms).flatten) ∧
+    (∀ cpu', cpu' < 2 ^ 32 → cpu' ≠ cpu → perfName cpu' ≠ perfName cpu) := by
+  constructor
+  · rw [c16_file_is_concat, partsFor_perfName cpu hc ms hwf hmeta]
+    have h0 : aget freshDir (perfName cpu) = none := by
+      simp [freshDir, aget, perfName_ne_defaultOpts cpu]
+    simp [combine, h0]
+  · intro cpu' hc' hne h
+    exact hne (perfName_inj hc' hc h)
+
+/-- non-vacuity: events on cpus 13 and 2 only, in two buffers for 13; cpu 0 sent nothing and has no file -/
+example :
+    let ms : List Msg := [.perf 13 [1, 2], .data 7 [9], .perf 2 [5], .perf 13 [3], .file [116] [8]]
+    aget (ms.foldl dirStep freshDir) (perfName 13) = some [1, 2, 3] ∧
+    aget (ms.foldl dirStep freshDir) (perfName 2) = some [5] ∧
+    aget (ms.foldl dirStep freshDir) (perfName 0) = none := by decide
+
+/-- "Replay and report of the received directory give the same output as for the local one", as far as the
+    perf events go: the readers take the per-cpu files in glob order and merge their events by time stamp
+    (`perfMerge` = the rounds of read_perf_data).  Two directories whose per-cpu files WITH events are the
+    same, in the same order — the local one has an empty file for every other cpu, the received one has
+    none — hand out the same event sequence, for every number of rounds.  (Events with equal time stamps
+    included: the first file in glob order wins in both.) -/
+theorem c16_perf_reader_ignores_empty_files (n : Nat) (loc rcv : List (List PEv))
+    (h : withEvents loc = withEvents rcv) : perfMerge n loc = perfMerge n rcv :=
+  perfMerge_congr n loc rcv h
+
+/-- in particular removing the empty files changes nothing -/
+theorem c16_perf_reader_without_empty_files (n : Nat) (fs : List (List PEv)) :
+    perfMerge n (withEvents fs) = perfMerge n fs :=
+  perfMerge_congr n _ _ (withEvents_idem fs)
+
+/-- non-vacuity: 16 cpus, events on cpus 13 and 2 (glob order …, 13, …, 2, …), equal time stamps across files -/
+example :
+    let a : List PEv := [⟨5, 100, 2⟩, ⟨9, 100, 1⟩]
+    let b : List PEv := [⟨5, 101, 2⟩, ⟨7, 101, 1⟩]
+    withEvents [[], [], [], a, [], b, []] = withEvents [a, b] ∧
+    perfMerge 4 [[], [], [], a, [], b, []] = [⟨5, 100, 2⟩, ⟨5, 101, 2⟩, ⟨7, 101, 1⟩, ⟨9, 100, 1⟩] := by decide
+
+/-- C16-DUMP-PERFIDX repaired: `uftrace dump` announces every per-cpu block with the cpu number of its
+    file, so the labels are a function of the files with data alone: the received directory and the local
+    one (same files with data, in the same glob order) are labelled alike. -/
+theorem c16_dump_perf_labels (loc rcv : List (Nat × Bool))
+    (h : loc.filter (·.2) = rcv.filter (·.2)) :
+    dumpLabels true loc = dumpLabels true rcv ∧ dumpLabels true loc = (loc.filter (·.2)).map (·.1) := by
+  simp only [dumpLabels, dumpLabelsFrom_fixed, h, and_self]
+
+/-- C16-DUMP-PERFIDX witness (the printer as it is prints the position in the glob result): a 16-cpu
+    machine, events on cpu 13 only.  Locally perf-cpu13.dat is the sixth file (0, 1, 10, 11, 12, 13, …) and is
+    announced as perf-cpu5.dat; in the received directory it is the only file and is announced as
+    perf-cpu0.dat: the dump of the received directory differs from the local one, and both name a file that
+    does not hold these events. -/
+theorem c16_prefix_dump_perf_label_witness :
+    let loc : List (Nat × Bool) := [(0, false), (1, false), (10, false), (11, false), (12, false), (13, true),
+      (14, false), (15, false), (2, false), (3, false), (4, false), (5, false), (6, false), (7, false), (8, false),
+      (9, false)]
+    dumpLabels false loc = [5] ∧ dumpLabels false [(13, true)] = [0] ∧
+    dumpLabels true loc = [13] ∧ dumpLabels true [(13, true)] = [13] := by decide
+
 /-! ### several clients -/
 
 /-- Isolation, for any number of clients and any interleaving of their
